@@ -13,6 +13,7 @@
 -/
 import GoblVerif.Spec.C02
 import GoblVerif.Proofs.CalcTax
+import GoblVerif.Proofs.CalcGroups
 
 namespace GoblVerif.Props.C02
 open GoblVerif GoblVerif.Calc GoblVerif.Spec.C02
@@ -109,6 +110,36 @@ theorem single_category_sum (r : Rule) (c : ℕ) (ct : CatTotal) (hr : ct.retain
     cases r <;> simp_all [mrp]
   rw [hm, add_toRat _ _ (by rw [up_exp]; omega), up_toRat]
   simp [Amount.toRat]
+
+/-- **matching is equality of keys**: `RateTotal.matches` holds exactly when the group and the combo
+have the same extensions, country and — unless both are exempt — percentage and surcharge percentage
+by value.  An exempt combo never matches a 0 % group, a surcharged rate never an unsurcharged one. -/
+theorem matches_iff_same_key (rt : RateTotal) (cb : Combo) :
+    rtMatches rt cb = true ↔ rtKey rt = comboKey cb := rtMatches_iff rt cb
+
+/-- **partition_by_key** (any rows, any rule): the base of the group with key `k` in category `cat`
+is exactly the sum of the contributions of the combos with that category and that key — every combo
+of every row is counted in the one group with its key and in no other. -/
+theorem partition_by_key (r : Rule) (c : ℕ) (cat : String) (k : Key) (rows : List Row) :
+    catGroupBase cat k (baseRateTotals exactOps r c rows) = (rows.map (rowGroupContrib r c cat k)).sum :=
+  baseRateTotals_group r c cat k rows
+
+/-- a combo contributes nothing to a group with another key or another category -/
+theorem other_groups_untouched (r : Rule) (c : ℕ) (cb : Combo) (t : Amount) (cat : String) (k : Key)
+    (cats : List CatTotal) (hok : CatsOk r c cats) (h : ¬ (cb.cat == cat ∧ comboKey cb = k)) :
+    catGroupBase cat k (addToCats exactOps r c cb t cats) = catGroupBase cat k cats := by
+  rw [addToCats_group r c cb t cat k cats hok, if_neg h, add_zero]
+
+/-- non-vacuity of the key: an exempt combo and a 0 % combo have different keys; `20%` and `20.0%`
+the same -/
+example : comboKey { cat := "VAT", country := "", key := "", percent := none, surcharge := none, ext := "", retained := false }
+    ≠ comboKey { cat := "VAT", country := "", key := "", percent := some ⟨⟨0, 2⟩⟩, surcharge := none, ext := "", retained := false } := by
+  simp [comboKey]
+
+example : comboKey { cat := "VAT", country := "", key := "", percent := some ⟨⟨20, 2⟩⟩, surcharge := none, ext := "", retained := false }
+    = comboKey { cat := "VAT", country := "", key := "", percent := some ⟨⟨200, 3⟩⟩, surcharge := none, ext := "", retained := false } := by
+  simp [comboKey, Amount.toRat, pow10]
+  norm_num
 
 /-- non-vacuity: two rows at 21 %, one at 10 %, one exempt -/
 example :
